@@ -35,16 +35,26 @@ Definition min_list (l : list Z) : option Z :=
 Definition pow2_32 (k : Z) : Z := wrap32 (2 ^ (k mod 64)).
 Definition align32 (m : Z) (x : esa) : q4 := q4_map (fun c => wrap32 (c * pow2_32 (snd x - m))) (fst x).
 Definition add32 (x y : q4) : q4 := q4_map wrap32 (q4_add x y).
+(* an exactly-zero summand carries an arbitrary power and is left out of the alignment (tsim 537b58f): the common power is the
+   smallest power among the NON-ZERO summands; if every summand is zero it is the plain minimum *)
+Definition q4_is_zero (c : q4) : bool := let '(a, b, c', d) := c in (a =? 0) && (b =? 0) && (c' =? 0) && (d =? 0).
+Definition sum_min (l : list esa) : option Z :=
+  match filter (fun x => negb (q4_is_zero (fst x))) l with
+  | [] => min_list (map snd l)
+  | nz => min_list (map snd nz)
+  end.
+Definition align32z (m : Z) (x : esa) : q4 := if q4_is_zero (fst x) then q4_zero else align32 m x.
 Definition esa_sum (l : list esa) : option esa :=
-  match min_list (map snd l) with
+  match sum_min l with
   | None => None                                   (* jnp.min of an empty axis raises *)
-  | Some m => Some (fold_left add32 (map (align32 m) l) q4_zero, m)
+  | Some m => Some (fold_left add32 (map (align32z m) l) q4_zero, m)
   end.
 Definition align_exact (m : Z) (x : esa) : q4 := q4_scale (2 ^ (snd x - m)) (fst x).
+Definition align_exactz (m : Z) (x : esa) : q4 := if q4_is_zero (fst x) then q4_zero else align_exact m x.
 Definition esa_sum_exact (l : list esa) : option esa :=
-  match min_list (map snd l) with
+  match sum_min l with
   | None => None
-  | Some m => Some (fold_left q4_add (map (align_exact m) l) q4_zero, m)
+  | Some m => Some (fold_left q4_add (map (align_exactz m) l) q4_zero, m)
   end.
 
 (* ---- prod along an axis: associative_scan(combine) then take the last element; empty axis -> identity.
